@@ -167,6 +167,8 @@ def run(ctx):
                 for tail in ("#a", "  #a", "#a#", "a  b", "* a *", "http://x.y"):
                     ml.append(pre + elem.replace("{i}", pad + ind) + "\n" + pad + tail + "\n")
     small += ml
+    # character references to line ends and other control characters inside paragraphs and headings
+    small += ["foo&#10;&#10;bar\n", "foo&#10; \n and \n&#10;bar\n", "# a&#10;b\n", "- a&#10;b\n#c\n", "a&#13;b\n", "a&#9;b\n", "> x&#10;#y\n"]
     if ctx.tier == "quick":  # a seed-selected subset of the space the thorough tier walks completely
         docs = list(gen.uniq(small + gen.sample(s1, 1500, ctx.seed) + gen.sample(s2, 1200, ctx.seed + 1) + gen.sample(s3, 600, ctx.seed + 2) + gen.sample(s4, 1500, ctx.seed + 3)))
         alone_docs = small
